@@ -2,7 +2,10 @@ import os
 
 VERIF = os.path.dirname(os.path.dirname(os.path.abspath(__file__)))
 LEAN_DIR = os.path.join(VERIF, 'lean')
-DRIVER_EXE = os.path.join(LEAN_DIR, '.lake', 'build', 'bin', 'xdocdriver')
+BUILT_DRIVER_EXE = os.path.join(LEAN_DIR, '.lake', 'build', 'bin', 'xdocdriver')
+# a check works with its OWN copy of the driver it has just built (see leanbuild.private_driver): another check that
+# rebuilds the driver meanwhile cannot pull the executable away under it
+DRIVER_EXE = os.environ.get('XDOC_VERIF_DRIVER') or BUILT_DRIVER_EXE
 GENERATED = os.path.join(LEAN_DIR, 'XdocModel', 'Generated.lean')
 EVIDENCE_DIR = os.path.join(VERIF, 'evidence')
 REPLAY_DIR = os.path.join(VERIF, 'replays')
